@@ -210,10 +210,10 @@ theorem locked_handleControl (s : State) (p : Pdu) (hl : Locked s.sec)
     · split
       · rename_i s' rsp h
         have := handlePhyRequest_same _ _ _ _ _ _ h
-        simp only [commit_sec, this.1]; exact hl
+        simp only [commit_sec, (phyInstantCheck_same s').1, this.1]; exact hl
       · rename_i s' h
         have := handlePhyRequest_same _ _ _ _ _ _ h
-        simp only [this.1]; exact hl
+        simp only [(phyInstantCheck_same s').1, this.1]; exact hl
       · split
         · simpa using hl
         · exact hl
